@@ -311,4 +311,121 @@ theorem sim_copy {x : GPS grow} {st : Store} (h : Sim x st) :
   refine ⟨s, s', (s.buffer.length : Int), ?_, rfl, hi, hi', hc⟩
   simp only [gps_copy, gCopy, hx, copy_spec, okOr_ok]
 
+
+/-! ### sketches: the regenerated sketch code over the two store instances -/
+
+section sketch
+
+open DDS.Gen.Sketch
+
+variable {M : Type} [MapI M] [Inhabited M]
+
+/-- same mapping object, same zero count, stores in simulation -/
+structure SkSim (a : DDSketch M (GPS grow)) (b : DDSketch M Store) : Prop where
+  map : a.IndexMapping = b.IndexMapping
+  pos : Sim a.positiveValueStore b.positiveValueStore
+  neg : Sim a.negativeValueStore b.negativeValueStore
+  zero : a.zeroCount = b.zeroCount
+
+/-- `NewDDSketch(m, NewBufferedPaginatedStore(), NewBufferedPaginatedStore())` on both sides -/
+theorem skSim_new (m : M) :
+    SkSim (NewDDSketch m (⟨NewBufferedPaginatedStore⟩ : GPS grow) ⟨NewBufferedPaginatedStore⟩)
+      (NewDDSketch m (Store.new .pag) (Store.new .pag)) :=
+  ⟨rfl, sim_new, sim_new, rfl⟩
+
+theorem GetCount_param {a : DDSketch M (GPS grow)} {b : DDSketch M Store} (h : SkSim a b) :
+    DDSketch.GetCount a = DDSketch.GetCount b := by
+  unfold DDSketch.GetCount
+  rw [sim_totalCount h.pos, sim_totalCount h.neg, h.zero]
+
+theorem GetZeroCount_param {a : DDSketch M (GPS grow)} {b : DDSketch M Store} (h : SkSim a b) :
+    DDSketch.GetZeroCount a = DDSketch.GetZeroCount b := h.zero
+
+theorem IsEmpty_param {a : DDSketch M (GPS grow)} {b : DDSketch M Store} (h : SkSim a b) :
+    DDSketch.IsEmpty a = DDSketch.IsEmpty b := by
+  unfold DDSketch.IsEmpty
+  rw [sim_isEmpty h.pos, sim_isEmpty h.neg, h.zero]
+
+/-- `GetValueAtQuantile`: the same answer (value and error), for every argument -/
+theorem GetValueAtQuantile_param {a : DDSketch M (GPS grow)} {b : DDSketch M Store} (h : SkSim a b) (q : F64) :
+    DDSketch.GetValueAtQuantile a q = DDSketch.GetValueAtQuantile b q := by
+  unfold DDSketch.GetValueAtQuantile
+  rw [GetCount_param h]
+  simp only [sim_totalCount h.neg, sim_keyAtRank h.pos, sim_keyAtRank h.neg, h.zero, h.map]
+
+theorem GetMaxValue_param {a : DDSketch M (GPS grow)} {b : DDSketch M Store} (h : SkSim a b) :
+    DDSketch.GetMaxValue a = DDSketch.GetMaxValue b := by
+  unfold DDSketch.GetMaxValue
+  simp only [sim_isEmpty h.pos, sim_maxIndex h.pos, sim_minIndex h.neg, h.zero, h.map]
+
+theorem GetMinValue_param {a : DDSketch M (GPS grow)} {b : DDSketch M Store} (h : SkSim a b) :
+    DDSketch.GetMinValue a = DDSketch.GetMinValue b := by
+  unfold DDSketch.GetMinValue
+  simp only [sim_isEmpty h.neg, sim_maxIndex h.neg, sim_minIndex h.pos, h.zero, h.map]
+
+theorem Clear_param {a : DDSketch M (GPS grow)} {b : DDSketch M Store} (h : SkSim a b) :
+    SkSim (DDSketch.Clear a) (DDSketch.Clear b) :=
+  ⟨h.map, sim_clear h.pos, sim_clear h.neg, rfl⟩
+
+theorem Copy_param {a : DDSketch M (GPS grow)} {b : DDSketch M Store} (h : SkSim a b) :
+    SkSim (DDSketch.Copy a) (DDSketch.Copy b) :=
+  ⟨h.map, sim_copy h.pos, sim_copy h.neg, h.zero⟩
+
+/-- `AddWithCount(value, count)`: the same error, and the receivers are related again.  Side conditions: the
+    index the mapping assigns on the side the value is routed to is an int32. -/
+theorem AddWithCount_param {a : DDSketch M (GPS grow)} {b : DDSketch M Store} (h : SkSim a b) (v c : F64)
+    (hp : F64.lt (MapI.MinIndexableValue b.IndexMapping) v = true → Idx32 (MapI.Index b.IndexMapping v))
+    (hn : F64.lt v (F64.neg (MapI.MinIndexableValue b.IndexMapping)) = true →
+      Idx32 (MapI.Index b.IndexMapping (F64.neg v))) :
+    (DDSketch.AddWithCount a v c).2 = (DDSketch.AddWithCount b v c).2 ∧
+      SkSim (DDSketch.AddWithCount a v c).1 (DDSketch.AddWithCount b v c).1 := by
+  cases a with
+  | mk ma pa na za =>
+  cases b with
+  | mk mb pb nb zb =>
+  obtain ⟨hm, hpos, hneg, hz⟩ := h
+  simp only at hm hz hpos hneg hp hn
+  subst hm hz
+  unfold DDSketch.AddWithCount
+  dsimp only
+  by_cases h0 : F64.lt c (.fin 0) = true
+  · simp only [h0, if_true]
+    exact ⟨trivial, ⟨rfl, hpos, hneg, rfl⟩⟩
+  · have hc := nonneg_of_not_lt_zero c (by simpa using h0)
+    simp only [h0, Bool.false_eq_true, if_false]
+    by_cases h1 : F64.lt (MapI.MinIndexableValue ma) v = true
+    · simp only [h1, if_true]
+      by_cases h2 : F64.lt (MapI.MaxIndexableValue ma) v = true
+      · simp only [h2, if_true]
+        exact ⟨trivial, ⟨rfl, hpos, hneg, rfl⟩⟩
+      · simp only [h2, Bool.false_eq_true, if_false]
+        exact ⟨trivial, ⟨rfl, sim_addWithCount hpos _ (hp h1) c hc, hneg, rfl⟩⟩
+    · simp only [h1, Bool.false_eq_true, if_false]
+      by_cases h3 : F64.lt v (F64.neg (MapI.MinIndexableValue ma)) = true
+      · simp only [h3, if_true]
+        by_cases h4 : F64.lt v (F64.neg (MapI.MaxIndexableValue ma)) = true
+        · simp only [h4, if_true]
+          exact ⟨trivial, ⟨rfl, hpos, hneg, rfl⟩⟩
+        · simp only [h4, Bool.false_eq_true, if_false]
+          exact ⟨trivial, ⟨rfl, hpos, sim_addWithCount hneg _ (hn h3) c hc, rfl⟩⟩
+      · simp only [h3, Bool.false_eq_true, if_false]
+        by_cases h5 : F64.isNaN v = true
+        · simp only [h5, if_true]
+          exact ⟨trivial, ⟨rfl, hpos, hneg, rfl⟩⟩
+        · simp only [h5, Bool.false_eq_true, if_false]
+          exact ⟨trivial, ⟨rfl, hpos, hneg, rfl⟩⟩
+
+theorem Add_eq_AddWithCount {S : Type} [StoreI S] [Inhabited S] (g : DDSketch M S) (v : F64) :
+    DDSketch.Add g v = DDSketch.AddWithCount g v (.fin 1) := rfl
+
+theorem Add_param {a : DDSketch M (GPS grow)} {b : DDSketch M Store} (h : SkSim a b) (v : F64)
+    (hp : F64.lt (MapI.MinIndexableValue b.IndexMapping) v = true → Idx32 (MapI.Index b.IndexMapping v))
+    (hn : F64.lt v (F64.neg (MapI.MinIndexableValue b.IndexMapping)) = true →
+      Idx32 (MapI.Index b.IndexMapping (F64.neg v))) :
+    (DDSketch.Add a v).2 = (DDSketch.Add b v).2 ∧ SkSim (DDSketch.Add a v).1 (DDSketch.Add b v).1 := by
+  rw [Add_eq_AddWithCount, Add_eq_AddWithCount]
+  exact AddWithCount_param h v (.fin 1) hp hn
+
+end sketch
+
 end DDS.GenPagSketch
